@@ -194,6 +194,9 @@ def check(model: Model, run: Run) -> None:
                        "input'; (3) every attribute description / matching rule that reaches a filter constructor passed a match of the attribute "
                        "pattern on that path, and the pattern's language is included in RFC 4512's (regular-language inclusion, Engine E)")
     model.func(ENTRY)
+    # what an accepted filter is rendered as parses back to it: a piece of the text is read by what is in it, not by what follows it
+    from .c13 import delimiter_searches_stay_in_their_piece
+    delimiter_searches_stay_in_their_piece(model, run, "F9-delimiter-search-stays-in-its-piece")
     global PATTERN, PARSER_NAMES
     PATTERN = attribute_pattern_name(model)
     from ..anchors import filt as filter_anchors
